@@ -434,6 +434,8 @@ def mutation_table(fmt, rng):
         for v in (0, 1, U16, rng.getrandbits(16)):
             add('block_size', block_size=v)
         add('sys_fill', sys_fill=0x41)
+        add('be-halves', blocks=0x01020304, blocks_be=0x0a0b0c0d, block_size=0x0102, block_size_be=0x0304)
+        add('be-halves', blocks=7, blocks_be=0, block_size=2048, block_size_be=0)
     elif fmt == 'gpt':
         P = images.pte
         for v in (0x55AA, 0xAA54, 0):
